@@ -329,20 +329,21 @@ pub proof fn lemma_section_rt_q<'a>(pre: Seq<u8>, vs: Seq<Question<'a>>)
     decreases vs.len()
 {
     if vs.len() > 0 {
-        let n = vs.len() as int;
         let dl = vs.drop_last();
+        let last = vs.last();
         assert forall|i: int| 0 <= i < dl.len() implies (#[trigger] dl[i]).wf_ok() && dl[i].wf_canon() by { assert(dl[i] == vs[i]); }
         lemma_section_rt_q(pre, dl);
-        let b = pre + seq_enc::<Question>(dl);
-        let x = vs.last().wf_enc();
-        let b2 = b + x;
-        vs.last().lemma_rt(b);
-        assert(vs.subrange(0, n - 1) =~= dl);
-        assert(vs[n - 1] == vs.last());
-        lemma_prefix_concat(b, x);
-        lemma_step_q(b, b2, pre.len() as int, vs, n - 1);
-        assert(vs.subrange(0, n) =~= vs);
-        lemma_concat_assoc(pre, seq_enc::<Question>(dl), x);
+        let e = seq_enc::<Question>(dl);
+        let b = pre + e;
+        let x = last.wf_enc();
+        last.lemma_rt(b);
+        lemma_qchain_stable(b, x, pre.len() as int, dl, b.len() as int);
+        // chain(b + x, |pre|, vs, |b + x|) by definition, with the boundary |b| as witness
+        assert(Question::wf_dec(b + x, b.len() as int, &vs.last(), (b + x).len() as int));
+        assert(chain::<Question>(b + x, pre.len() as int, vs.drop_last(), b.len() as int));
+        assert(chain::<Question>(b + x, pre.len() as int, vs, (b + x).len() as int));
+        lemma_concat_assoc(pre, e, x);
+        assert(seq_enc::<Question>(vs) == e + x);
     } else {
         assert(pre + seq_enc::<Question>(vs) =~= pre);
     }
@@ -353,20 +354,21 @@ pub proof fn lemma_section_rt_rr<'a>(pre: Seq<u8>, vs: Seq<ResourceRecord<'a>>)
     decreases vs.len()
 {
     if vs.len() > 0 {
-        let n = vs.len() as int;
         let dl = vs.drop_last();
+        let last = vs.last();
         assert forall|i: int| 0 <= i < dl.len() implies (#[trigger] dl[i]).wf_ok() && dl[i].wf_canon() by { assert(dl[i] == vs[i]); }
         lemma_section_rt_rr(pre, dl);
-        let b = pre + seq_enc::<ResourceRecord>(dl);
-        let x = vs.last().wf_enc();
-        let b2 = b + x;
-        vs.last().lemma_rt(b);
-        assert(vs.subrange(0, n - 1) =~= dl);
-        assert(vs[n - 1] == vs.last());
-        lemma_prefix_concat(b, x);
-        lemma_step_rr(b, b2, pre.len() as int, vs, n - 1);
-        assert(vs.subrange(0, n) =~= vs);
-        lemma_concat_assoc(pre, seq_enc::<ResourceRecord>(dl), x);
+        let e = seq_enc::<ResourceRecord>(dl);
+        let b = pre + e;
+        let x = last.wf_enc();
+        last.lemma_rt(b);
+        lemma_rrchain_stable(b, x, pre.len() as int, dl, b.len() as int);
+        // chain(b + x, |pre|, vs, |b + x|) by definition, with the boundary |b| as witness
+        assert(ResourceRecord::wf_dec(b + x, b.len() as int, &vs.last(), (b + x).len() as int));
+        assert(chain::<ResourceRecord>(b + x, pre.len() as int, vs.drop_last(), b.len() as int));
+        assert(chain::<ResourceRecord>(b + x, pre.len() as int, vs, (b + x).len() as int));
+        lemma_concat_assoc(pre, e, x);
+        assert(seq_enc::<ResourceRecord>(vs) == e + x);
     } else {
         assert(pre + seq_enc::<ResourceRecord>(vs) =~= pre);
     }
@@ -950,7 +952,13 @@ def apply(c):
                                 assert(call_ensures(vx_p, (vx_it0.remaining()[j],), false));
                             }
                         }
-                        Some(%s)
+                        let vx_removed = %s;
+                        proof {
+                            // the OPT record is taken out, the other additional records keep their order
+                            assert(additional_records@ =~= vx_add.remove(i as int)); // @C09:opt-lifted,C05:additional-section-as-parsed,C11:opt-lifted
+                            assert(vx_removed == vx_add[i as int]); // @C09:opt-lifted
+                        }
+                        Some(vx_removed)
                     }
                     None => {
                         proof {
